@@ -12,7 +12,7 @@ Core Lean only: the same terms run at `K := Rat` in `Driver/C12.lean` and are th
 | `mdsPre`              | `methods/multidimensional_scaling.hpp` `embed()` : centre, `*= -0.5`              |
 | `gram` / `kpcaPre`    | `routines/pca.hpp` `compute_centered_kernel_matrix` with the linear kernel callback |
 | `fromTriplets`        | `utils/sparse.hpp` `sparse_matrix_from_triplets` (Eigen `setFromTriplets`: duplicates are summed) |
-| `reachCode`           | `neighbors/connected.hpp` `is_connected` (what the DFS from sample 0 decides)     |
+| `connectedCode`       | `neighbors/connected.hpp` `is_connected` (DFS from sample 0 along the edges and along the reversed edges) |
 -/
 namespace TapkeeVerif.Equivariance
 open TapkeeVerif
@@ -158,12 +158,26 @@ def reachSet {n : Nat} (G : Graph n) (a : Fin n) : List (Fin n) × Bool :=
   let S := expandN G n [a]
   (S, closed G S)
 
-/-- the decision of `is_connected`: all `n` samples reached from sample 0 (`none`: certificate failed) -/
+/-- all `n` samples reached from sample 0 along the directed edges (`reaches_all_from_first`; before the repair of
+    F-CONN-DIR this alone was the decision of `is_connected`); `none`: certificate failed -/
 def reachCode {n : Nat} (G : Graph n) : Option Bool :=
   if h : 0 < n then
     let r := reachSet G ⟨0, h⟩
     if r.2 then some ((List.finRange n).all fun b => r.1.contains b) else none
   else some false
+
+/-- the reversed graph (`backward[neighbor].push_back(i)` in `is_connected`): `i ∈ reverseGraph G j ↔ j ∈ G i` -/
+def reverseGraph {n : Nat} (G : Graph n) : Graph n := fun j => (List.finRange n).filter fun i => (G i).contains j
+
+/-- what `is_connected` decides (neighbors/connected.hpp after the repair of F-CONN-DIR, for lists of uniform
+    length): sample 0 reaches every sample along the edges and along the reversed edges -/
+def ConnectedDecision {n : Nat} (G : Graph n) : Prop := ReachFromFirst G ∧ ReachFromFirst (reverseGraph G)
+
+/-- the executable decision of `is_connected` -/
+def connectedCode {n : Nat} (G : Graph n) : Option Bool :=
+  match reachCode G, reachCode (reverseGraph G) with
+  | some a, some b => some (a && b)
+  | _, _ => none
 
 /-- strong connectivity, decided with the same certificate -/
 def strongCode {n : Nat} (G : Graph n) : Option Bool :=
